@@ -112,7 +112,7 @@ def seams_begin(arm=None):
         s.calls = 0
         s.tracking = True
         s.arm_nth = None
-    if arm is not None:
+    if arm is not None and arm[0] in SEAMS:      # (an unknown seam never fires)
         s = SEAMS[arm[0]]
         s.arm_nth, s.arm_exc = arm[1], arm[2]
 
@@ -129,6 +129,119 @@ def seams_end():
             pending = True
             s.arm_nth = None
     return calls, pending
+
+
+# ---------------------------------------------------------------------------
+# S9b: every numpy call the library makes is a place where an allocation can fail or the user's Ctrl-C can
+# land ("failing allocations and system calls", "crash at arbitrary points").  The name `np` inside the
+# library's modules is replaced by a pass-through proxy; functions reached through it count as calls of the
+# one seam "np.*" and the k-th of them inside one library operation can raise.  Types, ufunc objects,
+# constants and index helpers are handed out unchanged.  The fault never fires while library code is
+# running a `finally:` / `except:` block, an `__exit__` or a `__del__`: an implementation that undoes a
+# temporary change there satisfies the properties and is not to be tripped up inside its own cleanup.
+
+import ast
+import types
+
+_CLEANUP = {}
+
+
+def _cleanup_lines(filename):
+    c = _CLEANUP.get(filename)
+    if c is None:
+        c = set()
+        try:
+            tree = ast.parse(open(filename, encoding="utf-8").read())
+            for node in ast.walk(tree):
+                if isinstance(node, ast.Try) or type(node).__name__ == "TryStar":
+                    for st in list(node.finalbody) + [x for h in node.handlers for x in h.body]:
+                        c.update(range(st.lineno, (st.end_lineno or st.lineno) + 1))
+        except Exception:
+            pass
+        _CLEANUP[filename] = c
+    return c
+
+
+def in_cleanup(frame):
+    while frame is not None:
+        co = frame.f_code
+        if co.co_name in ("__exit__", "__del__", "__aexit__"):
+            return True
+        fn = co.co_filename
+        if _state["repo"] and fn.startswith(_state["repo"] + os.sep) and frame.f_lineno in _cleanup_lines(fn):
+            return True
+        frame = frame.f_back
+    return False
+
+
+class NumpyGate(Seam):
+    """The seam "np.*": counts every function call made through the proxy while tracking."""
+
+    def __init__(self):
+        Seam.__init__(self, "np.*", None)
+        self.skipped_in_cleanup = 0
+        self.last_site = None
+
+    def wrap(self, real, name):
+        gate = self
+
+        def through_proxy(*a, **k):
+            if gate.tracking:
+                gate.calls += 1
+                if gate.arm_nth is not None and gate.calls == gate.arm_nth:
+                    if in_cleanup(sys._getframe(1)):
+                        gate.skipped_in_cleanup += 1      # stays pending: reported as "did not fire"
+                    else:
+                        gate.arm_nth = None
+                        gate.fired += 1
+                        gate.last_site = name
+                        raise gate.arm_exc
+            return real(*a, **k)
+        through_proxy.__name__ = getattr(real, "__name__", name)
+        through_proxy.__doc__ = getattr(real, "__doc__", None)
+        through_proxy.__wrapped__ = real
+        return through_proxy
+
+
+_WRAPPABLE = (types.FunctionType, types.BuiltinFunctionType, types.MethodType, types.BuiltinMethodType)
+
+
+class NumpyProxy:
+    def __init__(self, real, path, gate):
+        d = self.__dict__
+        d["_real"], d["_path"], d["_gate"], d["_cache"] = real, path, gate, {}
+
+    def __getattr__(self, name):
+        c = self.__dict__["_cache"]
+        if name in c:
+            return c[name]
+        v = getattr(self._real, name)
+        if isinstance(v, types.ModuleType):
+            w = NumpyProxy(v, self._path + "." + name, self._gate)
+        elif isinstance(v, _WRAPPABLE) or isinstance(v, Seam) or type(v).__name__ == "_ArrayFunctionDispatcher":
+            w = self._gate.wrap(v, self._path + "." + name)
+        else:
+            return v
+        c[name] = w
+        return w
+
+    def __setattr__(self, name, value):
+        setattr(self._real, name, value)
+
+    def __dir__(self):
+        return dir(self._real)
+
+
+def install_numpy_proxy(modules):
+    if "np.*" not in SEAMS:
+        SEAMS["np.*"] = NumpyGate()
+    proxy = NumpyProxy(np, "np", SEAMS["np.*"])
+    n = 0
+    for m in modules:
+        if getattr(m, "np", None) is np:
+            m.np = proxy
+            n += 1
+    return n
 
 
 class SimClock:
@@ -227,4 +340,13 @@ def boot(repo="/repo", with_peer=False, quiet=True):
         install_pandas_seam([sempler.semi, drf.code])
     _state["booted"] = True
     _state["repo"] = repo
+    if os.environ.get("SEMSIM_NO_NP_PROXY") != "1":
+        import sempler.lganm
+        import sempler.anm
+        import sempler.normal_distribution
+        mods = [sempler.utils, sempler.lganm, sempler.anm, sempler.normal_distribution, sempler.generators,
+                sempler.noise]
+        if with_peer:
+            mods += [sempler.semi, drf.code]
+        install_numpy_proxy(mods)
     return sempler
